@@ -193,10 +193,11 @@ def parse_query(zc, uni, data, now, scope=None):
     from zeroconf._protocol.incoming import DNSIncoming
 
     m = DNSIncoming(data, ("0.0.0.0", 5353), scope, float(now))  # the listener passes the receiving interface's scope
+    qu_query = bool(m.is_query() and m.has_qu_question())  # what the duplicate guard's exemption looks at (D11c)
     if not m.valid:
-        return False, False, m.has_qu_question(), None
+        return False, False, qu_query, None
     if not m.is_query():
-        return True, False, m.has_qu_question(), None
+        return True, False, qu_query, None
     qh = zc.query_handler
     items = []
     for q in m._questions:
@@ -211,7 +212,7 @@ def parse_query(zc, uni, data, now, scope=None):
     pkt = dict(now=int(now), id=m.id, flags=m.flags, num_auth=m._num_authorities, nq=len(m._questions),
                q0type=m._questions[0].type if m._questions else 0, items=items, known=known,
                questions=[(q.name, q.type, q.class_, bool(q.unique)) for q in m._questions])
-    return True, True, m.has_qu_question(), pkt
+    return True, True, qu_query, pkt
 
 
 def seen_str(seen):
